@@ -1,0 +1,6 @@
+//go:build !verif
+// +build !verif
+
+package netflow9
+
+func vhook(ev string, shard *TemplatesShard, key uint32) {}
